@@ -150,15 +150,17 @@ def offsets_for(graph, steps, exhaustive=True):
                     yield s, e, total
 
 
-def cigar_for(n):
+def cigar_for(n, ordinal=0):
     if n == 1:
         return "1X", 0
+    if n >= 3 and ordinal % 4 == 1:
+        return f"1X1M{n - 2}=", n - 1  # M (match or mismatch) is a legal CIGAR operation as well
     return f"1X{n - 1}=", n - 1
 
 
 def walk_record(ordinal, steps, s, e, total, tags=True, cg=True):
     n = e - s
-    cig, matches = cigar_for(n)
+    cig, matches = cigar_for(n, ordinal)
     opt = []
     if tags:
         opt += ["tp:A:P", "NM:i:0"]
@@ -224,7 +226,7 @@ class Chain:
 
     Node ids are chosen so that lexicographic and numeric order differ (s10 < s9 lexicographically)."""
 
-    def __init__(self, blocks, chrom="chr1", id_base=0, hap="hA#1#c", decl="fwd", so_base=0, ends=("tip", "tip"), scaffold_len=2, id_style="s", long_hap=False):
+    def __init__(self, blocks, chrom="chr1", id_base=0, hap="hA#1#c", decl="fwd", so_base=0, ends=("tip", "tip"), scaffold_len=2, id_style="s", long_hap=False, self_links=False):
         self.blocks = list(blocks)
         self.chrom = chrom
         self.decl = decl
@@ -256,6 +258,10 @@ class Chain:
         prev = first
         for b in self.blocks:
             prev = self._block(b, prev)
+        if self_links:
+            # self links do not change the block structure: a tandem repeat on the first node, a hairpin on a scaffold
+            self._link(tip, "+", tip, "+")
+            self._link(first, "+", first, "-")
         if ends[1] == "tip":
             t = self._ref(2)
             self._link(prev, "+", t, "+")
@@ -272,7 +278,9 @@ class Chain:
         self._n += 1
         # s9, s10, s11 ...: lexicographic order differs from numeric order
         if self.id_style == "numeric":
-            return str(self._n - 1)  # vg-style ids 0, 1, 2, ... (they collide with small integers used as internal names)
+            # vg-style ids 0, 1 (they collide with small integers used as internal names), then 8, 9, 10, 11, ...
+            # (lexicographic and numeric order differ across the 9 -> 10 step)
+            return str(self._n - 1) if self._n <= 2 else str(self._n + 5)
         if self.id_style == "odd":
             return f"s{self._n + 7}" + (".1", "-alt", "#b", "")[self._n % 4]
         return f"s{self._n + 7}"
@@ -290,7 +298,9 @@ class Chain:
         i = self._id()
         # one contig name per rank: a contig has exactly one rank in a valid rGFA
         name = self.hap if rank == 1 else f"{self.hap}.r{rank}"
-        self.g.add_seg(i, _seq(ln, self._n + 50), [("LN", "i", str(ln)), ("SN", "Z", name), ("SO", "i", str(self._hso)), ("SR", "i", str(rank))])
+        q = _seq(ln, self._n + 50)
+        q = q[:1] + q[1:].lower()  # haplotype alleles are partly soft-masked
+        self.g.add_seg(i, q, [("LN", "i", str(ln)), ("SN", "Z", name), ("SO", "i", str(self._hso)), ("SR", "i", str(rank))])
         self._hso += ln + 3
         return i
 
